@@ -1038,8 +1038,18 @@ fn sized_record(r: &mut Rng, size: usize) -> SpanRecord {
         let mut n = size - base;
         // an exact size may not exist (the length prefix grows by a byte at 128 / 16384): a few
         // rounds, then the nearest size is good enough
+        // the filler is n bytes long whatever it is made of: half of the records use two-byte
+        // characters from a random offset on, so that every byte position of a long name is a
+        // character boundary in some record and the middle of a character in another
+        let off = r.below(4);
+        let wide = r.chance(1, 2);
         for _ in 0..8 {
-            rec.name = "n".repeat(n).into();
+            rec.name = if wide && n > off + 2 {
+                let m = (n - off) / 2;
+                format!("{}{}{}", "n".repeat(off), "é".repeat(m), "n".repeat(n - off - 2 * m)).into()
+            } else {
+                "n".repeat(n).into()
+            };
             let got = e_batch(SERVICE, &[j_expected(&rec)]).len();
             if got == size || n == 0 {
                 break;
